@@ -232,9 +232,16 @@ class Canon:
                 r = self._inline_call(e, fn)
                 if r is not None:
                     return r
+        if isinstance(e, ast.Call) and isinstance(e.func, ast.Name) and e.func.id == "int" and len(e.args) == 2 and isinstance(e.args[1], ast.Constant) and e.args[1].value == 16 \
+                and isinstance(e.args[0], ast.Call) and norm(e.args[0].func) in ("binascii.hexlify", "hexlify", "b2h") and len(e.args[0].args) == 1:
+            return ast.Call(ast.Attribute(ast.Name("int", ast.Load()), "from_bytes", ast.Load()), [e.args[0].args[0], ast.Constant("big")], [])
         if isinstance(e, ast.Call) and isinstance(e.func, ast.Name) and e.func.id == "divmod" and len(e.args) == 2 and not e.keywords:
             return ast.Tuple([self._fold(ast.BinOp(copy.deepcopy(e.args[0]), ast.FloorDiv(), copy.deepcopy(e.args[1]))),
                               self._fold(ast.BinOp(copy.deepcopy(e.args[0]), ast.Mod(), copy.deepcopy(e.args[1])))], ast.Load())
+        if isinstance(e, ast.BinOp) and isinstance(e.op, ast.Add):
+            for s_, o_ in ((e.left, e.right), (e.right, e.left)):
+                if isinstance(s_, ast.Constant) and isinstance(s_.value, (bytes, str)) and len(s_.value) == 0:
+                    return o_
         if isinstance(e, ast.BinOp):
             a, b = e.left, e.right
             if isinstance(a, ast.Constant) and isinstance(b, ast.Constant) and isinstance(a.value, int) and isinstance(b.value, int) and not isinstance(a.value, bool):
@@ -611,7 +618,7 @@ class SymWalker:
                         self._bind(t, ast.Subscript(copy.deepcopy(value), ast.Constant(i), ast.Load()) if value is not None else None)
 
     def _effect(self, kind, st, reach, **kw):
-        self.effects.append(Effect(kind, st, reach, tuple(self.loop_stack), **kw))
+        self.effects.append(Effect(kind, getattr(st, "_orig", st), reach, tuple(self.loop_stack), **kw))
 
     def _record_guard(self, st, c, ctest):
         if id(st) in self.guards and repr(self.guards[id(st)]) != repr(c):
@@ -620,13 +627,49 @@ class SymWalker:
             self.guards[id(st)] = c
         self.tests.setdefault(id(st), ctest)
 
+    def _find_ifexp(self, st):
+        """first conditional expression of a simple statement that is evaluated unconditionally (not under a lambda /
+        comprehension / short-circuit operand)"""
+        roots = []
+        if isinstance(st, (ast.Assign, ast.AnnAssign, ast.AugAssign, ast.Expr, ast.Return)):
+            if getattr(st, "value", None) is not None:
+                roots.append(st.value)
+        elif isinstance(st, ast.Raise) and st.exc is not None:
+            roots.append(st.exc)
+        stack = list(roots)
+        while stack:
+            n = stack.pop(0)
+            if isinstance(n, ast.IfExp):
+                return n
+            if isinstance(n, (ast.Lambda, ast.ListComp, ast.SetComp, ast.DictComp, ast.GeneratorExp)):
+                continue
+            if isinstance(n, ast.BoolOp):
+                stack.append(n.values[0])
+                continue
+            stack.extend(ast.iter_child_nodes(n))
+        return None
+
     def stmt(self, st, states):
+        ie = self._find_ifexp(st) if isinstance(st, (ast.Assign, ast.AnnAssign, ast.AugAssign, ast.Expr, ast.Return, ast.Raise)) else None
+        if ie is not None:
+            # `x = a if c else b`  ==  `if c: x = a else: x = b`
+            orig = getattr(st, "_orig", st)
+
+            a = _replace_node(st, ie, ie.body)
+            b = _replace_node(st, ie, ie.orelse)
+            a._orig = b._orig = orig
+            syn = ast.If(ie.test, [a], [b])
+            ast.copy_location(syn, st)
+            syn._synthetic = True
+            return self.stmt(syn, states)
         if isinstance(st, ast.If):
             res = []
             for s in states:
                 self.env = s.env
                 c = self.atomize(st.test)
-                self._record_guard(st, c, self.sub(st.test))
+                if not getattr(st, "_synthetic", False):
+                    self._record_guard(st, c, self.sub(st.test))
+                self._calls(st.test, getattr(st.body[0], "_orig", st) if getattr(st, "_synthetic", False) else st, s.reach)
                 ra, rb = f_and(s.reach, c), f_and(s.reach, f_not(c))
                 if ra is not False:
                     res += self.block(st.body, [s.fork(ra)])
@@ -637,7 +680,9 @@ class SymWalker:
             for s in states:
                 self.env = s.env
                 v = st.value if isinstance(st, ast.Return) else st.exc
-                self.exits.append(Exit("return" if isinstance(st, ast.Return) else "raise", st, s.reach, self.sub(v) if v is not None else None))
+                if v is not None:
+                    self._calls(v, st, s.reach)
+                self.exits.append(Exit("return" if isinstance(st, ast.Return) else "raise", getattr(st, "_orig", st), s.reach, self.sub(v) if v is not None else None))
             return []
         if isinstance(st, ast.Assert):
             res = []
@@ -658,6 +703,8 @@ class SymWalker:
             for s in states:
                 self.env = s.env
                 it = self.sub(st.iter) if is_for else None
+                if is_for:
+                    self._calls(st.iter, st, s.reach)
                 env0 = {k: v for k, v in s.env.items() if k not in assigned}
                 self.loop_stack.append(LoopCtx(st, it, norm(st.target) if is_for else None, s.reach))
                 body_state = State(dict(env0), s.reach)
@@ -711,7 +758,7 @@ class SymWalker:
             return states
         for s in states:
             self.env = s.env
-            self.visits.append((st, s.reach))
+            self.visits.append((getattr(st, "_orig", st), s.reach))
             self._simple(st, s.reach)
         return self._dedupe(states) if len(states) > 1 else states
 
@@ -770,6 +817,26 @@ class SymWalker:
                 f = n.func
                 if isinstance(f, ast.Attribute) and isinstance(f.value, ast.Name) and f.attr in MUTATORS and f.value.id in self.env:
                     self.env.pop(f.value.id, None)
+
+
+def _replace_node(root, target, by):
+    """copy of root with the node `target` (by identity) replaced by a copy of `by`"""
+    def rec(n):
+        if n is target:
+            return copy.deepcopy(by)
+        if isinstance(n, ast.AST):
+            new = type(n)()
+            for fld, val in ast.iter_fields(n):
+                if isinstance(val, list):
+                    setattr(new, fld, [rec(v) for v in val])
+                else:
+                    setattr(new, fld, rec(val))
+            for a in ("lineno", "col_offset", "end_lineno", "end_col_offset"):
+                if hasattr(n, a):
+                    setattr(new, a, getattr(n, a))
+            return new
+        return n
+    return rec(root)
 
 
 def _replace_name(e, name, by):
@@ -916,10 +983,10 @@ def mutated_locals(func_node):
     return out
 
 
-def walk(ctx, fi, leaf=None, keep=(), body=None):
+def walk(ctx, fi, leaf=None, keep=(), body=None, int_names=None, inline=False, feasible=None):
     """convenience: canonical walker of a function with module constants resolved"""
     keep = set(keep) | (mutated_locals(fi.node) - set(fi.params()))
-    w = SymWalker(fi.node, Canon(make_const_of(ctx, fi)), leaf, keep=keep)
+    w = SymWalker(fi.node, Canon(make_const_of(ctx, fi), int_names, make_inliner(ctx, fi) if inline else None), leaf, keep=keep, feasible=feasible)
     w.run(body)
     return w
 
@@ -1000,6 +1067,27 @@ def guard_reject_set(w, root, pred, univ, empty, pure=False, allow=()):
             if not (sa == univ):
                 s = s | sa
     return s, n
+
+
+def finite_leaf(domain, evalf):
+    """leaf for a finite subject domain: an atom whose truth evalf(expr, value) can compute for every domain value
+    becomes an explicit subset; everything else stays opaque"""
+    dom = frozenset(domain)
+    cache = {}
+
+    def leaf(e, text):
+        if text in cache:
+            return cache[text]
+        try:
+            r = ("set", gi.FinSet([v for v in dom if evalf(e, v)], dom))
+        except Exception:
+            r = ("op", text)
+        cache[text] = r
+        return r
+    leaf.univ = gi.FinSet(dom, dom)
+    leaf.empty = gi.FinSet((), dom)
+    leaf.cache = cache
+    return leaf
 
 
 def int_walk(ctx, fi, subject_texts, sym_texts=(), extra_const=None, keep=(), truthy=True):
@@ -1165,7 +1253,10 @@ def summarize(func_node, canon, leaf=None, keep=()):
         if e.kind == "fall":
             raw.append(("exit", ["fall"], e.cond))
         else:
-            raw.append(("exit", [e.kind, " ", e.value if e.value is not None else "None"] + (in_loop_exit(e, func_node, loop_no)), e.cond))
+            v = e.value
+            if e.kind == "raise" and isinstance(v, ast.Call):
+                v = v.func          # the exception type, not its message
+            raw.append(("exit", [e.kind, " ", v if v is not None else "None"] + (in_loop_exit(e, func_node, loop_no)), e.cond))
     for e in w.effects:
         if e.kind in ("break", "continue"):
             raw.append(("effect", [e.kind] + in_loop(e), e.reach))
@@ -1294,8 +1385,15 @@ def against_reference(ctx, fi, ref_source, ref_names, key, int_names=None, leaf=
     tree = ast.parse(ref_source) if isinstance(ref_source, str) else ref_source
     if isinstance(ref_names, str):
         ref_names = [ref_names]
-    canon_code = Canon(make_const_of(ctx, fi), int_names, make_inliner(ctx, fi) if inline else None)
     ref_funcs = {n.name: n for n in tree.body if isinstance(n, ast.FunctionDef)}
+    ref_called = set()
+    for nm in ref_names:
+        if nm in ref_funcs:
+            ref_called |= {c.func.id for c in ast.walk(ref_funcs[nm]) if isinstance(c, ast.Call) and isinstance(c.func, ast.Name)}
+    base_inl = make_inliner(ctx, fi)
+    # helpers the reference calls by name without defining them stay calls on both sides
+    code_inl = (lambda c: base_inl(c) if (c.func.id in ref_funcs or c.func.id not in ref_called) else None) if inline else None
+    canon_code = Canon(make_const_of(ctx, fi), int_names, (lambda c: code_inl(c) if isinstance(c.func, ast.Name) else None) if inline else None)
     canon_ref = Canon(None, int_names, (lambda c: ref_funcs.get(c.func.id) if isinstance(c.func, ast.Name) and c.func.id != "_" else None) if inline else None)
     s_code = summarize(fi.node, canon_code, leaf, keep)
     best = None
@@ -1323,3 +1421,101 @@ def against_reference(ctx, fi, ref_source, ref_names, key, int_names=None, leaf=
     ctx.undecided(key, where, "%s is organised differently from the reference transcription (%d components differ, e.g. %s); this rule gives no verdict on it"
                   % (fi.qualname, len(details), "; ".join("%s %s" % (d[0], (d[2] or d[3] or "")[:80]) for d in details[:2])))
     return None
+
+
+# ====================================================================== set / path helpers for rules
+def _assignments(f):
+    import itertools
+    ops = gi.f_opaques(f) if f not in (True, False) else []
+    if len(ops) > 14:
+        raise AnalysisError("formula has %d opaque atoms" % len(ops))
+    for bits in itertools.product((False, True), repeat=len(ops)):
+        yield dict(zip(ops, bits))
+
+
+def may_set(f, univ, empty, assume=None):
+    """subject values for which f holds under SOME assignment of the other atoms (consistent with `assume`)"""
+    s = empty
+    for a in _assignments(f):
+        if assume and any(a.get(k, v) != v for k, v in assume.items()):
+            continue
+        s = s | gi.f_eval(f, a, univ, empty)
+    return s
+
+
+def must_set(f, univ, empty, assume=None):
+    """subject values for which f holds under EVERY assignment of the other atoms (consistent with `assume`)"""
+    s = univ
+    for a in _assignments(f):
+        if assume and any(a.get(k, v) != v for k, v in assume.items()):
+            continue
+        s = s & gi.f_eval(f, a, univ, empty)
+    return s
+
+
+def decisive_set(f, univ, empty, assume=None):
+    """union, over the assignments of the other atoms under which the subject decides f (f is neither true for
+    all subject values nor for none), of the subject values making f true.  This is `the values the guards on the
+    subject select`, independent of how the guards are nested or combined with unrelated conditions."""
+    s = empty
+    n = 0
+    for a in _assignments(f):
+        if assume and any(a.get(k, v) != v for k, v in assume.items()):
+            continue
+        v = gi.f_eval(f, a, univ, empty)
+        if v.is_empty() or v == univ:
+            continue
+        n += 1
+        s = s | v
+    return s, n
+
+
+def exits_formula(w, pred):
+    return f_or(*[e.cond for e in w.exits if pred(e)]) if any(pred(e) for e in w.exits) else False
+
+
+def entails(a, b, univ=None, empty=None):
+    """propositional: a => b (value-set atoms are interpreted)"""
+    univ = univ if univ is not None else gi.IntSet.all()
+    empty = empty if empty is not None else gi.IntSet.empty()
+    f = f_and(a, f_not(b))
+    if f is False:
+        return True
+    if f is True:
+        return False
+    for asg in _assignments(f):
+        if not gi.f_eval(f, asg, univ, empty).is_empty():
+            return False
+    return True
+
+
+def calls_matching(w, pred_text):
+    """call effects whose canonical text satisfies pred_text (a callable or a suffix of the callee text)"""
+    out = []
+    for e in w.effects:
+        if e.kind != "call":
+            continue
+        t = norm(e.call.func)
+        if (pred_text(t) if callable(pred_text) else t.endswith(pred_text)):
+            out.append(e)
+    return out
+
+
+def handler_names(try_node):
+    names = set()
+    for h in try_node.handlers:
+        if h.type is None:
+            names.add("BaseException")
+        else:
+            for x in (h.type.elts if isinstance(h.type, ast.Tuple) else [h.type]):
+                names.add((df.dotted(x) or "?").split(".")[-1])
+    return names
+
+
+def enclosing_tries(func_node, node):
+    """try statements whose BODY contains node, innermost last"""
+    out = []
+    for n in ast.walk(func_node):
+        if isinstance(n, ast.Try) and any(x is node for s in n.body for x in ast.walk(s)):
+            out.append(n)
+    return out
